@@ -5,4 +5,4 @@ Extraction Language OCaml.
 Extraction "model.ml" base_anchor har_req har_res capture c16_req_ok c16_res_ok
   req_clause res_clause roundtrip_req roundtrip_res marshal_post marshal_content
   hreq_sim hres_sim res_sim hreq_eq hres_eq chunk_enc dechunk_concrete is_chunked
-  hget k_ce spec_decoded unmarshal_post unmarshal_content post_eq content_eq msg_headers redirect_of k_ct pd_rt_ok ct_rt_ok req_strings_b res_strings_b coding_case_b zlib_b media has_framing body_unparseable_b.
+  hget k_ce spec_decoded unmarshal_post unmarshal_content post_eq content_eq msg_headers redirect_of k_ct pd_rt_ok ct_rt_ok req_strings_b res_strings_b coding_case_b zlib_b media has_framing body_unparseable_b unframed_body_b.
